@@ -373,6 +373,12 @@ impl Ctx {
 
     /// Is this driver call active (not filtered out by replay mode)?
     fn active(&self, sub: &str) -> Option<Option<&J>> {
+        // development aid: VERIF_ONLY=<sub> runs a single sub-check
+        if let Ok(only) = std::env::var("VERIF_ONLY") {
+            if only != sub {
+                return None;
+            }
+        }
         match &self.replay {
             None => Some(None),
             Some((s, c)) if s == sub => Some(Some(c)),
@@ -436,6 +442,7 @@ impl Ctx {
                         if self.stop.load(Ordering::Relaxed) && !failed.get() {
                             return Ok(());
                         }
+                        trace_case(sub, shard, &case);
                         let nsamples = acc.borrow().samples.len();
                         let mut obs = Obs { want_sample: !failed.get() && shard == 0 && nsamples < 4, ..Default::default() };
                         let r = match guard(|| oracle(&case, &mut obs)) {
@@ -569,6 +576,7 @@ impl Ctx {
                             break;
                         }
                         let Some(case) = nth(i) else { continue };
+                        trace_case(sub, shard, &case);
                         let mut obs = Obs { want_sample: samples.len() < 2 && (slot - lo) % 997 == 0, ..Default::default() };
                         let r = match guard(|| oracle(&case, &mut obs)) {
                             Ok(r) => r,
@@ -723,6 +731,15 @@ impl Ctx {
         } else {
             0
         }
+    }
+}
+
+/// Development / abort diagnosis aid: with VERIF_TRACE_DIR set, every case is written to
+/// <dir>/<sub>.<shard>.json before it is executed (the last file content is the culprit when the
+/// process is killed by a signal).
+pub fn trace_case<C: Serialize>(sub: &str, shard: u64, case: &C) {
+    if let Ok(dir) = std::env::var("VERIF_TRACE_DIR") {
+        let _ = std::fs::write(format!("{dir}/{sub}.{shard}.json"), serde_json::to_string(&json!({"sub": sub, "case": case})).unwrap_or_default());
     }
 }
 
